@@ -38,7 +38,7 @@ GENERATED_OBLIGATIONS = ["Generated.fileDestCall = EJ.stdShape"]
 RULE = ("values = random trees over the JSON-native domain (every C0 control, 0x7f, U+2028/2029, BMP edges, astral "
         "characters, +-2^63, 2^64-1, 2^64, -0.0, subnormals, 1e22, random bit-pattern floats, NaN/inf, empty containers, long "
         "keys/strings, nesting chains to depth 60 quick / 200 thorough), the documented rich types (Path, date, datetime, "
-        "time, set, complex) under three default functions (eliot's json_default; a caller's function chaining to it; a caller's function "
+        "time - exact classes and user subclasses, naive and aware -, set, complex) under three default functions (eliot's json_default; a caller's function chaining to it; a caller's function "
         "that knows only its own type and raises TypeError otherwise - dates/times must still be written, paths/sets/complex are then "
         "out of domain), passed as json_default= or as a deprecated encoder= class, and out-of-domain leaves (bytes, non-str keys, lone surrogates, "
         "unsupported objects, aware time, over-range ints); messages = dicts of such values fed in groups of 1-6 to a "
@@ -134,7 +134,11 @@ def g_leaf(rng, prof):
     r = rng.random()
     if prof["bad"] and r < prof["bad"]:
         k = rng.choice(["int", "surr", "unsupported", "timetz", "surrpath"] + ([] if prof["ext"] else ["custom"])
-                       + (["ownpath", "owncomplex", "ownset"] if prof["ext"] == "own" else []))
+                       + (["ownpath", "owncomplex", "ownset", "ownsub", "ownsub"] if prof["ext"] == "own" else []))
+        if k == "ownsub":
+            if rng.random() < 0.5:
+                return {"t": "date", "k": "datetime", "sub": True, "args": [2024, 2, 29, 23, 59, 59, rng.choice([0, 123456])], "tz": rng.choice([None, 0, 330])}
+            return {"t": "time", "args": [1, 2, 3, rng.choice([0, 66507])], "tz": rng.choice([None, 60]), "sub": True}
         if k == "ownpath":
             return {"t": "path", "v": g_str(rng, long_ok=False)["v"]}
         if k == "owncomplex":
@@ -160,15 +164,18 @@ def g_leaf(rng, prof):
         if k == "path":
             s = g_str(rng, long_ok=False)
             return {"t": "path", "v": s["v"]}
+        # instances of subclasses reach the default function; a caller's function that does not chain refuses them
+        sub = prof["ext"] != "own" and rng.random() < 0.4
         if k == "date":
-            return {"t": "date", "k": "date", "args": [rng.choice([1, 999, 1970, 2024, 9999]), rng.randint(1, 12), rng.randint(1, 28)], "tz": None}
+            return {"t": "date", "k": "date", "args": [rng.choice([1, 999, 1970, 2024, 9999]), rng.randint(1, 12), rng.randint(1, 28)], "tz": None, "sub": sub}
         if k == "datetime":
-            return {"t": "date", "k": "datetime",
+            return {"t": "date", "k": "datetime", "sub": sub,
                     "args": [rng.choice([1, 999, 1970, 2024, 9999]), rng.randint(1, 12), rng.randint(1, 28), rng.randint(0, 23),
                              rng.randint(0, 59), rng.randint(0, 59), rng.choice([0, 0, 1, 500000, 999999, rng.randint(0, 999999)])],
                     "tz": rng.choice([None, None, 0, 330, -90, 840, -720])}
         if k == "time":
-            return {"t": "time", "args": [rng.randint(0, 23), rng.randint(0, 59), rng.randint(0, 59), rng.choice([0, 1, 999999, rng.randint(0, 999999)])], "tz": None}
+            return {"t": "time", "args": [rng.randint(0, 23), rng.randint(0, 59), rng.randint(0, 59), rng.choice([0, 1, 999999, rng.randint(0, 999999)])],
+                    "tz": rng.choice([None, None, 0, 330, -90]) if sub else None, "sub": sub}
         if k == "complex":
             return {"t": "complex", "re": g_float(rng)["hex"], "im": g_float(rng)["hex"]}
         if k == "set":
@@ -272,6 +279,19 @@ class Opaque(object):
     pass
 
 
+class SubDate(_dt.date):
+    """user subclasses of the date/time classes (pendulum, freezegun, ORM types ...): orjson serialises only the
+    exact classes itself, instances of subclasses are handed to the default function"""
+
+
+class SubDateTime(_dt.datetime):
+    pass
+
+
+class SubTime(_dt.time):
+    pass
+
+
 def fl(hexs):
     return float(hexs) if hexs in NONFINITE else float.fromhex(hexs)
 
@@ -304,10 +324,10 @@ def build(t):
         return pathlib.Path("".join(map(chr, t["v"])))
     if k == "date":
         if t["k"] == "date":
-            return _dt.date(*t["args"])
-        return _dt.datetime(*t["args"], tzinfo=tzinfo(t["tz"]))
+            return (SubDate if t.get("sub") else _dt.date)(*t["args"])
+        return (SubDateTime if t.get("sub") else _dt.datetime)(*t["args"], tzinfo=tzinfo(t["tz"]))
     if k == "time":
-        return _dt.time(*t["args"], tzinfo=tzinfo(t["tz"]))
+        return (SubTime if t.get("sub") else _dt.time)(*t["args"], tzinfo=tzinfo(t["tz"]))
     if k == "set":
         return set(build(x) for x in t["v"])
     if k == "complex":
@@ -364,9 +384,12 @@ def bad_kinds(t, ext):
             else:
                 out |= bad_kinds(kk, ext)
             out |= bad_kinds(vv, ext)
+    elif k in ("time", "date") and t.get("sub"):
+        if ext == "own":
+            out.add("unsupported")      # a subclass instance is handed to the caller's function, which does not know it
     elif k == "time":
         if t["tz"] is not None:
-            out.add("timeTz")
+            out.add("timeTz")           # exact datetime.time with tzinfo: orjson itself refuses
     elif k == "custom":
         if ext:
             out |= bad_kinds(t["v"], ext)
@@ -389,6 +412,8 @@ def features(t, depth=0):
             tags.add("astral")
         if any(c in (0x2028, 0x2029) for c in t["v"]):
             tags.add("u2028")
+    elif k in ("date", "time") and t.get("sub"):
+        tags.add("datetime-subclass")
     elif k == "int":
         bnd = abs(int(t["v"])) >= 2**53
     elif k == "float":
@@ -454,6 +479,8 @@ def tree_of(o):
         return {"t": "date", "v": o.isoformat()}
     if ty is _dt.time:
         return {"t": "timetz"} if o.tzinfo is not None else {"t": "time", "v": o.isoformat()}
+    if isinstance(o, (_dt.date, _dt.time)):
+        return {"t": "isosub", "v": o.isoformat()}        # instance of a subclass
     if ty is set:
         return {"t": "set", "v": [tree_of(x) for x in o]}
     if ty is complex:
@@ -482,14 +509,15 @@ def gtree_of(o):
         return {"t": "custom", "v": gtree_of(o.payload)}
     if isinstance(o, pathlib.Path):
         return {"t": "path", "v": cps(str(o))}
-    if ty is _dt.datetime or ty is _dt.time:
-        off = o.utcoffset() if ty is _dt.datetime or o.tzinfo is not None else None
+    if isinstance(o, (_dt.datetime, _dt.time)):
+        sub = ty is not _dt.datetime and ty is not _dt.time
+        off = o.utcoffset() if o.tzinfo is not None else None
         tz = None if o.tzinfo is None else int(off.total_seconds() // 60)
-        if ty is _dt.time:
-            return {"t": "time", "args": [o.hour, o.minute, o.second, o.microsecond], "tz": tz}
-        return {"t": "date", "k": "datetime", "args": [o.year, o.month, o.day, o.hour, o.minute, o.second, o.microsecond], "tz": tz}
-    if ty is _dt.date:
-        return {"t": "date", "k": "date", "args": [o.year, o.month, o.day], "tz": None}
+        if isinstance(o, _dt.time):
+            return {"t": "time", "args": [o.hour, o.minute, o.second, o.microsecond], "tz": tz, "sub": sub}
+        return {"t": "date", "k": "datetime", "args": [o.year, o.month, o.day, o.hour, o.minute, o.second, o.microsecond], "tz": tz, "sub": sub}
+    if isinstance(o, _dt.date):
+        return {"t": "date", "k": "date", "args": [o.year, o.month, o.day], "tz": None, "sub": ty is not _dt.date}
     if ty is set:
         return {"t": "set", "v": [gtree_of(x) for x in o]}
     if ty is complex:
@@ -541,6 +569,8 @@ def shrink(tree, ext):
 
 def key_of(sub):
     """small structural key of a minimised unfaithful value (for KNOWN_FINDINGS matching)"""
+    if sub["t"] in ("time", "date") and sub.get("sub"):
+        return {"leaf": "subclass of datetime." + (sub["k"] if sub["t"] == "date" else "time")}
     if sub["t"] == "time" and sub.get("tz") is None:
         us = sub["args"][3]
         return {"leaf": "datetime.time", "microsecond": "10000..99999" if 10000 <= us <= 99999 else "other"}
@@ -590,7 +620,7 @@ def expected(o, ext):
         return expected(o.payload, ext)
     if isinstance(o, pathlib.Path):
         return ("s", str(o))
-    if ty is _dt.datetime or ty is _dt.date or ty is _dt.time:
+    if isinstance(o, (_dt.date, _dt.time)):              # exact classes and subclasses alike
         return ("s", o.isoformat())
     if ty is set:
         return ("set", sorted((expected(x, ext) for x in o), key=repr))
